@@ -224,7 +224,11 @@ func GenRuleSet(t *rapid.T, o RuleOpts) *Generated {
 					}
 					var pat *Pat
 					for tries := 0; ; tries++ {
-						pat = GenPat(t, rapid.IntRange(0, 3).Draw(t, "pd"), o.Pat)
+						if rapid.IntRange(0, 7).Draw(t, "cornerrule") == 0 {
+							pat = GenCornerPat(t, o.Pat)
+						} else {
+							pat = GenPat(t, rapid.IntRange(0, 3).Draw(t, "pd"), o.Pat)
+						}
 						if o.NoNullable && pat.Nullable() {
 							if tries > 5 {
 								pat = genAtom(t, o.Pat)
